@@ -1,3 +1,54 @@
-From V Require Import Base.Bytes.
-Theorem C11_placeholder : True. Proof. exact I. Qed.
-Print Assumptions C11_placeholder.
+(* C11 — every render call returns.  Theorems only. *)
+From Coq Require Import List Bool Arith.
+Import ListNotations.
+From V Require Import Base.Bytes Model.Depth Proofs.DepthP Gen.Sites_C11.
+
+(* 1. the model's include evaluation is a structurally recursive (total) function of the depth budget for
+      EVERY file table; a chain of limit+1 nested includes is an error ... *)
+Theorem C11_deep_path_is_error : forall fs d f, has_path fs (S d) f -> is_err (render fs d f) = true.
+Proof. exact deep_path_is_error. Qed.
+Print Assumptions C11_deep_path_is_error.
+(* ... every cycle shape: a file from which a cycle of includes is reachable is an error at every limit *)
+Theorem C11_reachable_cycle_is_error : forall fs j k f g d,
+  steps fs j f g -> 0 < k -> steps fs k g g -> is_err (render fs d f) = true.
+Proof. exact reachable_cycle_is_error. Qed.
+Print Assumptions C11_reachable_cycle_is_error.
+Theorem C11_self_include_is_error : forall fs f its i d,
+  nth_error fs f = Some its -> In i its -> target i = f -> is_err (render fs d f) = true.
+Proof. exact self_include_is_error. Qed.
+Print Assumptions C11_self_include_is_error.
+(* 2. ... and only those: with every named file present and no chain of limit+1 includes, it succeeds *)
+Theorem C11_shallow_is_ok : forall fs d, closed fs -> forall f, f < length fs -> ~ has_path fs (S d) f ->
+  exists b, render fs d f = Ok b.
+Proof. exact shallow_is_ok. Qed.
+Print Assumptions C11_shallow_is_ok.
+(* 3. bounded work: the number of include evaluations depends on the limit and the widest file only *)
+Theorem C11_calls_bounded : forall fs d f, fst (calls fs d f) <= geo (width fs) d.
+Proof. exact calls_bounded. Qed.
+Print Assumptions C11_calls_bounded.
+
+(* 4. what the source says now: the guard is the first statement of evalInclude and has the modelled shape;
+      the limit is positive *)
+Theorem C11_guard_in_source :
+  include_guard = bs "len(ctx.TemplateStack) > maxIncludeDepth" /\ 0 < max_include_depth.
+Proof. vm_compute. split; [reflexivity|repeat constructor]. Qed.
+Print Assumptions C11_guard_in_source.
+(* 5. partial operations: every single-value type assertion is on a sync.Pool value or on the sole
+      implementation of a package interface; every reflective struct-field read sits in a function that
+      tests for exported fields; template functions are called under a deferred recover *)
+Theorem C11_assertions_classified :
+  forallb (fun r => match snd r with AOther => false | _ => true end) unchecked_assertions = true.
+Proof. vm_compute. reflexivity. Qed.
+Print Assumptions C11_assertions_classified.
+Theorem C11_field_reads_guarded : forallb (fun r => snd r) reflect_field_reads = true.
+Proof. vm_compute. reflexivity. Qed.
+Print Assumptions C11_field_reads_guarded.
+Theorem C11_callfunc_recovers : existsb (fun r => bytes_eqb (snd r) (bs "callFunc")) recover_sites = true.
+Proof. vm_compute. reflexivity. Qed.
+Print Assumptions C11_callfunc_recovers.
+
+(* non-vacuity: a three-file cycle entered from outside it, and a diamond that is fine *)
+Example C11_cycle_example :
+  let fs := [[IInc 1]; [ILoop 2; IInc 3]; [IIf 1]; []] in
+  is_err (render fs 100 0) = true /\ (exists b, render [[IInc 1; IInc 2]; [IInc 3]; [ILoop 3]; []] 100 0 = Ok b).
+Proof. split; [vm_compute; reflexivity|eexists; vm_compute; reflexivity]. Qed.
